@@ -1762,3 +1762,93 @@ func objectResolutionOn(r *an.Run, rule string) {
 	r.Count("target-file parses", n)
 	r.Min("target-file parses", 2)
 }
+
+// ---------------------------------------------------------------------------
+// C19: the index of the offending character is a byte index into the name
+
+// c19NameIndex: validateChangeName reports the first invalid character of a
+// change name together with its index; readName turns the index into a
+// column by adding it to the byte offset of the name. So the index must be
+// the BYTE index of the character in the whole name: the index variable of a
+// range over the name itself, or — when the scan starts further in, at
+// name[k:] — that index plus k. (i+1 after decoding a first rune of `size`
+// bytes is right only for one-byte runes: seed C19-7.)
+func c19NameIndex(r *an.Run) {
+	f := fn(r, sectRel, "validateChangeName")
+	if f == nil {
+		return
+	}
+	s := paramAt(f, 0)
+	n := 0
+	for _, ret := range an.Returns(f) {
+		if len(ret.Results) != 3 {
+			continue
+		}
+		if okv, isc := an.ConstBool(ret.Results[2]); !isc || okv {
+			continue
+		}
+		n++
+		v := ret.Results[0]
+		key := short(f) + "|index-is-a-byte-offset"
+		if k, isc := an.ConstInt(v); isc {
+			// a constant index: the character must be the one decoded at that offset of the name
+			r.Check(k == 0, key+"|const", ret.Pos(), "a constant index returned for an invalid character is 0 (the first character of the name)")
+			continue
+		}
+		good, why := false, "the returned index is not a range index over the name"
+		lv := an.Lin(v)
+		for atom := range lv.Terms {
+			_ = atom
+		}
+		// find the range-index extracts in f
+		for _, b := range f.Blocks {
+			for _, in := range b.Instrs {
+				ex, ok := in.(*ssa.Extract)
+				if !ok || ex.Index != 1 {
+					continue
+				}
+				nx, ok := ex.Tuple.(*ssa.Next)
+				if !ok || !nx.IsString {
+					continue
+				}
+				rg, ok := nx.Iter.(*ssa.Range)
+				if !ok {
+					continue
+				}
+				base := an.Affine{Terms: map[string]int64{}}
+				switch x := rg.X.(type) {
+				case *ssa.Parameter:
+					if x != s {
+						continue
+					}
+				case *ssa.Slice:
+					if x.X != ssa.Value(s) || x.Low == nil {
+						if x.X != ssa.Value(s) {
+							continue
+						}
+					} else {
+						base = an.Lin(x.Low)
+					}
+				default:
+					continue
+				}
+				d := lv.Sub(an.Lin(ex)).Sub(base)
+				if d.IsZero() {
+					good = true
+				} else {
+					why = "the returned index differs from the byte index of the character in the name by " + d.String()
+				}
+			}
+		}
+		r.Check(good, key, ret.Pos(), "the index validateChangeName returns for the offending character is its byte offset in the whole name (range index, plus the start of the scanned tail if the scan starts later)%s", ifNonEmpty(boolStr(!good), ": "+why))
+	}
+	r.Count("invalid-name returns", n)
+	r.Min("invalid-name returns", 1)
+}
+
+func boolStr(b bool) string {
+	if b {
+		return "x"
+	}
+	return ""
+}
